@@ -548,6 +548,18 @@ func vecName(sc *env.Script) string {
 		if st.RunMS > 0 {
 			n += fmt.Sprintf("@%d", st.RunMS)
 		}
+		if st.DeployMS > 0 {
+			n += fmt.Sprintf("~deploy%d", st.DeployMS)
+		}
+		if st.ReadSchemaFails {
+			n += "+schemafail"
+		}
+		if st.ConnCloseFails || st.ClientCloseFail {
+			n += "+closefail"
+		}
+		if st.CancelMS > 0 {
+			n += fmt.Sprintf("+cancel%d", st.CancelMS)
+		}
 		if len(st.ByValue) > 0 {
 			var vs []string
 			for v, k := range st.ByValue {
